@@ -31,9 +31,8 @@ impl Default for Root {
 }
 
 pub fn root_from_document(document: &Document) -> Result<Root> {
-    let root = document
-        .descendants()
-        .find(|n| xml::has_name(n, "e57Root"))
+    let root = Some(document.root_element())
+        .filter(|n| xml::has_name(n, "e57Root"))
         .invalid_err("Unable to find e57Root tag in XML document")?;
 
     // Required fields
